@@ -51,7 +51,7 @@ ParseNumber(s, i) ==
          eneg == At(s, f2 + 1) = 45
      IN IF hasFrac /\ f2 = f1 THEN JFail(f1)                    \* "1." : digit required
         ELSE IF hasExp /\ e2 = e1 THEN JFail(e1)                \* "1e" : digit required
-        ELSE IF (i2 - i1) > 9 \/ (f2 - f1) > 3 \/ (hasExp /\ ((e2 - e1) > 1 \/ (i2 - i1) > 3 \/ (f2 - f1) > 2 \/ s[e1] - 48 > 3))
+        ELSE IF (i2 - i1) > 9 \/ (f2 - f1) > 3 \/ (i2 - i1) + (f2 - f1) > 9 \/ (hasExp /\ ((e2 - e1) > 1 \/ (i2 - i1) > 3 \/ (f2 - f1) > 2 \/ s[e1] - 48 > 3))
              THEN JOkD(e2, JInt(0), FALSE)                      \* valid JSON, value outside the modelled domain
         ELSE LET ip == DigitsVal(s, i1, i2, 0)
                  fd == IF hasFrac THEN f2 - f1 ELSE 0
